@@ -1,19 +1,37 @@
 """C13 Job billing never exceeds the instance and survives serialization.
 
 Decides (from the syntax trees, nothing is run):
-  R1  to_dict / from_dict round trip of every Resource subclass and both InstanceConfig subclasses: on the path from_dict takes
-      for the dictionary the same class's to_dict writes (version tests evaluated with the written version), every `data[k]` read
-      is a key the writer writes, the `type` / version assertions hold, and every constructor argument travels the cycle
-      key k -> __init__ parameter -> self.attr -> to_dict[k] back to the same key (no swapped or dropped field); nested
-      resources are written with to_dict and re-read through the cloud's dispatcher
-  R2  dispatcher exhaustiveness: `<cloud>_resource_from_dict` maps every class TYPE of the module (TYPEs pairwise distinct) to that
-      class's from_dict, and every resource class an instance config is created with is covered
-  R3  superadditivity typing: every `to_quantified_resource` quantity (resolved through the MRO and super() calls), as a function of
-      (cpu_in_mcpu, memory_in_bytes, worker_fraction_in_1024ths), is built only from parameters, non-negative-constant multiples, sums
-      and floor division by positive constants; worker_fraction_in_1024ths is `1024*cpu // (cores*1000)` and the parameters are passed
-      to the like-named keyword; such functions are monotone with sum f(x_i) <= f(sum x_i), which is the packing clause.
-      ceil / max / min / additive constants / subtraction are violations.
-Does not decide: "whole worker billed exactly", external (per-job) storage pricing, float prices.
+  R1  to_dict / from_dict round trip of every Resource subclass and both InstanceConfig subclasses.  to_dict is evaluated abstractly
+      (engines/c13facts.DictEval: locals, tuple unpacking, incremental construction, helpers, super()) into key -> expression over
+      self.<attr>; from_dict is executed abstractly on that symbolic dictionary (version tests evaluated with the written version,
+      accumulate loops read as comprehensions): every `data[k]` read is a key the writer writes, the `type` / version assertions hold,
+      and for every constructor argument the composition from_dict o to_dict is STRUCTURALLY the identity on the attribute it is stored
+      in (the attribute itself, element-wise copies, casts to its annotated type, nested to_dict / dispatcher pairs whose filters keep
+      every resource class).  Reported: swapped / dropped / constant fields, a defaulted parameter that the reader no longer passes, a
+      scalar written through a rounding function, and the LOSSY COLLECTION shape - a collection attribute read by the billing path of
+      which to_dict writes only a summary (one element, next(iter()), min / max ...: many-to-one) from which from_dict rebuilds the
+      whole collection (one-to-many).
+  R2  dispatcher exhaustiveness: `<cloud>_resource_from_dict` maps every class TYPE of the module (TYPEs pairwise distinct; TYPE
+      attributes or literal tags) to that class's from_dict, and every resource class an instance config is created with is covered;
+      a memoising dispatcher must key on every serialised field
+  R3  superadditivity typing: every `to_quantified_resource` quantity - obtained by abstract evaluation through the MRO, super(),
+      helpers, locals and in-place updates - as a function of (cpu_in_mcpu, memory_in_bytes, worker_fraction_in_1024ths) is built only
+      from parameters, non-negative-constant multiples, sums and floor division by positive constants; worker_fraction_in_1024ths is
+      `1024*cpu // (cores*1000)`, the parameters are passed to the like-named keyword, and what InstanceConfig.quantified_resources
+      does to each dict before appending it stays in the fragment.  Such functions are monotone with sum f(x_i) <= f(sum x_i), which is
+      the packing clause.  ceil / round / max / min / additive constants / subtraction are violations.
+  R4  purity (necessary for "whole worker billed exactly" and for "reloaded config bills identically": the whole worker and a job are
+      billed by the SAME function, a reloaded config starts with nothing cached): every dict value has a provenance - fresh / memo
+      (returned by an lru_cache'd method, or kept by the method in self.<attr> / a module container) / state (read from there) - with
+      aliasing through locals, super() and helper parameters.  Violations: an accumulating in-place update (x[k] op= e, x[k] = f(x[k]),
+      update(), helper) or a destructive one of a non-fresh dict; an overwrite of a retained dict with a value that is not determined
+      by what identifies that dict (memo key / instance); a hand-written memo whose key omits something the cached value depends on;
+      an accumulating store into a field the bill reads; a consumer in the instance-config classes that changes a memoised result of
+      quantified_resources in place.  A memo that nobody updates, and an in-place update of a dict built by the same call, are accepted.
+      Also: the whole worker is quantified through quantified_resources at (self.cores * 1000, self.instance_memory(), 0).
+  R5  every attribute of self that the billing path reads is set by __init__ from constructor parameters (whose round trip R1 decides)
+      or other such attributes, or is a class constant / property: from_dict returns Cls(...), so anything else is lost on reload.
+Does not decide: external (per-job) storage pricing, float prices, legacy-version branches of from_dict, callers outside the analysed files.
 """
 from __future__ import annotations
 
@@ -26,12 +44,17 @@ from engines.common import AnalysisError, Ctx, short
 META = dict(
     category='other',
     text='Writer/reader agreement decided per class by abstractly executing from_dict on the symbolic dictionary written by to_dict (truth table over its '
-         'tests), following each constructor argument through __init__ back to the written key; dispatcher tables compared with the set of classes; '
-         'a small type system (superadditive monotone integer expressions) applied to every resolved quantity expression. Level `other`: the exact-whole-worker '
-         'clause and prices are numeric and not decided.',
-    note='Trusted: CPython ast; engines/absdom.walk_block. Assumes instance attributes used as factors (storage_in_gib, number, cores) are non-negative integers. '
-         'Not decided: external storage (billed per job on top of the worker), rates, legacy-version branches of from_dict.',
-    technique='static analysis: writer/reader table agreement + dispatch exhaustiveness + superadditivity typing of integer expressions',
+         'tests) and comparing from_dict o to_dict with the identity structurally (many-to-one writer + one-to-many reader = lossy); dispatcher tables compared '
+         'with the set of classes; to_quantified_resource executed abstractly through the MRO over symbolic dicts with provenance (fresh / memo / state) and '
+         'aliasing: in-place updates of retained dicts, memo keys and stores into billed fields are classified, and the resulting quantity expressions are typed '
+         'in a superadditive monotone fragment. Level `other`: prices are numeric and not decided; purity + scale give the whole-worker identity only under the '
+         'stated assumptions.',
+    note='Trusted: CPython ast; engines/absdom.walk_block; engines/c13facts.DictEval (abstract evaluation, declines outside its fragment). Assumes instance attributes used as '
+         'factors (storage_in_gib, number, cores) are non-negative integers, that elements of a collection attribute vary independently, and that callers outside '
+         'the analysed files only read the dicts returned by quantified_resources. Not decided: external storage (billed per job on top of the worker), rates, '
+         'legacy-version branches of from_dict.',
+    technique='static analysis: writer/reader table agreement with structural identity of the composition + dispatch exhaustiveness + alias/provenance analysis of '
+              'returned dicts + superadditivity typing of integer expressions',
     design_ref='DESIGN.md §3 C13',
 )
 
@@ -116,8 +139,8 @@ def _written(ctx: Ctx, m: pf.Module, cls: ast.ClassDef) -> Dict[str, ast.expr]:
 
 def _init_map(ctx: Ctx, m: pf.Module, cls: ast.ClassDef) -> Tuple[List[str], Dict[str, str]]:
     """(constructor parameters, parameter -> attribute it is stored in)"""
-    fn = _methods(cls).get('__init__')
-    ctx.need(fn is not None, f'{m.rel}::{cls.name} has no __init__')
+    fn = _init_fn(cls)
+    ctx.need(fn is not None, f'{m.rel}::{cls.name} has no __init__ (own or inherited from an analysed class)')
     params = [a.arg for a in fn.args.args][1:]  # type: ignore[union-attr]
     store: Dict[str, str] = {}
     for s in fn.body:  # type: ignore[union-attr]
@@ -127,6 +150,14 @@ def _init_map(ctx: Ctx, m: pf.Module, cls: ast.ClassDef) -> Tuple[List[str], Dic
             if isinstance(tg, ast.Attribute) and isinstance(tg.value, ast.Name) and tg.value.id == 'self' and isinstance(v, ast.Name) and v.id in params:
                 store.setdefault(v.id, tg.attr)
     return params, store
+
+
+def _is_class_constant(m: pf.Module, cls: ast.ClassDef, e: ast.AST) -> bool:
+    try:
+        _const_value(m, cls, e)
+        return True
+    except KeyError:
+        return False
 
 
 def _init_fn(cls: ast.ClassDef) -> Optional[pf.FuncDef]:
@@ -185,8 +216,12 @@ def _is_identity_on(h: ast.AST, attr: str, annotation: Optional[ast.expr]) -> bo
                 if pf.dotted(head) not in want:
                     return False
             return _is_identity_on(h.args[0], attr, annotation)
-        if name in ('int', 'str', 'bool', 'float') and len(h.args) == 1 and not h.keywords and annotation is not None and pf.dotted(annotation) == name:
-            return _is_identity_on(h.args[0], attr, annotation)
+        if name in ('int', 'str', 'bool', 'float') and len(h.args) == 1 and not h.keywords and annotation is not None and pf.dotted(annotation) == name \
+                and _is_identity_on(h.args[0], attr, annotation):
+            return True
+        if name in ('int', 'float') and len(h.args) == 1 and not h.keywords and annotation is not None and pf.dotted(annotation) == name and isinstance(h.args[0], ast.Call) \
+                and pf.dotted(h.args[0].func) in ('str', 'repr') and len(h.args[0].args) == 1:
+            return _is_identity_on(h.args[0].args[0], attr, annotation)   # int(str(x)) == x for an int
         if name == 'json.loads' and len(h.args) == 1 and isinstance(h.args[0], ast.Call) and pf.dotted(h.args[0].func) == 'json.dumps' and len(h.args[0].args) == 1:
             return _is_identity_on(h.args[0].args[0], attr, annotation)
         if isinstance(h.func, ast.Attribute) and h.func.attr == 'copy' and not h.args and not h.keywords:
@@ -218,6 +253,7 @@ def _attr_occurrences(W: Dict[str, ast.expr], attr: str) -> List[Tuple[str, str,
                 continue
             node: ast.AST = n
             kind = 'whole'
+            mapped = False
             top: ast.AST = n
             while node is not root:
                 p = par[id(node)]
@@ -243,6 +279,9 @@ def _attr_occurrences(W: Dict[str, ast.expr], attr: str) -> List[Tuple[str, str,
                         break
                 elif isinstance(p, ast.Call) and p.func is node:
                     pass
+                elif isinstance(p, ast.comprehension) and p.iter is node and isinstance(par.get(id(p)), (ast.GeneratorExp, ast.ListComp, ast.SetComp)):
+                    mapped = True          # each element is mapped; an enclosing min / max / next still keeps one value only
+                    p = par[id(p)]
                 elif isinstance(p, ast.Call) and node in p.args:
                     name = pf.dotted(p.func)
                     if name in _SUMMARISERS:
@@ -258,7 +297,7 @@ def _attr_occurrences(W: Dict[str, ast.expr], attr: str) -> List[Tuple[str, str,
                     break
                 node = p
                 top = p
-            if kind == 'whole' and node is root and not _is_identity_on(root, attr, None):
+            if kind == 'whole' and node is root and (mapped or not _is_identity_on(root, attr, None)):
                 # e.g. list(self.attr.keys()): a view that drops the values
                 kind = 'other'
             out.append((key, kind, top))
@@ -284,7 +323,19 @@ def _compose(a2: ast.AST, data: str, W: Dict[str, ast.expr]) -> Tuple[ast.AST, L
                 keys.append(k)
                 return copy.deepcopy(W[k])
             return self.generic_visit(node)
-    return T().visit(copy.deepcopy(a2)), keys
+    out = T().visit(copy.deepcopy(a2))
+
+    class Simplify(ast.NodeTransformer):
+        # {'a': X, ...}['a'] -> X   (a nested dictionary written by to_dict and picked apart by from_dict)
+        def visit_Subscript(self, node):
+            self.generic_visit(node)
+            k = pf.const_str(node.slice)
+            if isinstance(node.value, ast.Dict) and k is not None:
+                hits = [v for kk, v in zip(node.value.keys, node.value.values) if kk is not None and pf.const_str(kk) == k]
+                if len(hits) == 1 and all(kk is not None for kk in node.value.keys):
+                    return hits[0]
+            return node
+    return Simplify().visit(out), keys
 
 
 def _data_key(e: ast.AST, data: str) -> Optional[str]:
@@ -296,15 +347,87 @@ def _data_key(e: ast.AST, data: str) -> Optional[str]:
     return None
 
 
-def _check_roundtrip(ctx: Ctx, m: pf.Module, cls: ast.ClassDef, dispatcher: Optional[str], billing_reads: Optional[Dict[str, str]] = None) -> None:
+def _walk_scoped(node: ast.AST, name: str):
+    """ast.walk that does not enter the parts of a comprehension / lambda in which `name` is rebound (there it denotes something else)."""
+    yield node
+    if isinstance(node, (ast.ListComp, ast.SetComp, ast.DictComp, ast.GeneratorExp)):
+        shadowed = False
+        for g in node.generators:
+            if not shadowed:
+                yield from _walk_scoped(g.iter, name)
+            if any(isinstance(x, ast.Name) and x.id == name for x in ast.walk(g.target)):
+                shadowed = True
+            if not shadowed:
+                for t in g.ifs:
+                    yield from _walk_scoped(t, name)
+        if not shadowed:
+            for part in ([node.key, node.value] if isinstance(node, ast.DictComp) else [node.elt]):
+                yield from _walk_scoped(part, name)
+        return
+    if isinstance(node, ast.Lambda) and any(a.arg == name for a in node.args.args):
+        return
+    for c in ast.iter_child_nodes(node):
+        yield from _walk_scoped(c, name)
+
+
+def _filter_eval(t: ast.AST, var: str, cname: str, tag: str) -> Optional[bool]:
+    """Truth of a comprehension filter for an element of class `cname` (serialised with type tag `tag`); None = not recognised."""
+    def tag_of(e: ast.AST):
+        if pf.const_str(e) is not None:
+            return pf.const_str(e)
+        if isinstance(e, ast.Attribute) and e.attr == 'TYPE':
+            if pf.nsrc(e.value) in (var, f'type({var})'):
+                return tag
+            if isinstance(e.value, ast.Name) and e.value.id in _CLASSES:
+                v = _class_consts(_CLASSES[e.value.id][1]).get('TYPE')
+                return v.value if isinstance(v, ast.Constant) else None
+        if isinstance(e, ast.Subscript) and pf.nsrc(e.value) == var and pf.const_str(e.slice) == 'type':
+            return tag
+        if isinstance(e, ast.Call) and isinstance(e.func, ast.Attribute) and e.func.attr == 'get' and pf.nsrc(e.func.value) == var and e.args and pf.const_str(e.args[0]) == 'type':
+            return tag
+        return None
+    if isinstance(t, ast.UnaryOp) and isinstance(t.op, ast.Not):
+        v = _filter_eval(t.operand, var, cname, tag)
+        return None if v is None else not v
+    if isinstance(t, ast.BoolOp):
+        vs = [_filter_eval(x, var, cname, tag) for x in t.values]
+        if any(v is None for v in vs):
+            return None
+        return all(vs) if isinstance(t.op, ast.And) else any(vs)
+    if isinstance(t, ast.Call) and pf.dotted(t.func) == 'isinstance' and len(t.args) == 2 and pf.nsrc(t.args[0]) == var:
+        cl = t.args[1].elts if isinstance(t.args[1], ast.Tuple) else [t.args[1]]
+        names = [pf.dotted(x) for x in cl]
+        if any(n is None or n not in _CLASSES for n in names):
+            return None
+        return any(n in cf.mro(cname, _CLASSES) for n in names)
+    if isinstance(t, ast.Compare) and len(t.ops) == 1:
+        op, a, b = t.ops[0], t.left, t.comparators[0]
+        if isinstance(op, (ast.Eq, ast.NotEq)):
+            x, y = tag_of(a), tag_of(b)
+            if x is None or y is None:
+                return None
+            return (x == y) if isinstance(op, ast.Eq) else (x != y)
+        if isinstance(op, (ast.In, ast.NotIn)) and isinstance(b, (ast.Tuple, ast.List, ast.Set)):
+            x = tag_of(a)
+            ys = [tag_of(e) for e in b.elts]
+            if x is None or any(y is None for y in ys):
+                return None
+            return (x in ys) if isinstance(op, ast.In) else (x not in ys)
+    return None
+
+
+def _check_roundtrip(ctx: Ctx, m: pf.Module, cls: ast.ClassDef, dispatcher: Optional[str], billing_reads: Optional[Dict[str, str]] = None,
+                     nested: Optional[List[Tuple[str, str]]] = None) -> None:
     """billing_reads: attribute -> an expression of the billing path that reads it (None: every attribute counts)."""
     C = cls.name
     meths = _methods(cls)
     W = _written(ctx, m, cls)
     params, store = _init_map(ctx, m, cls)
-    ann, defaults = _param_info(meths['__init__'])
+    ann, defaults = _param_info(_init_fn(cls))  # type: ignore[arg-type]
     fn = meths['from_dict']
     fparams = [a.arg for a in fn.args.args]
+    if any(pf.dotted(d) == 'classmethod' for d in fn.decorator_list) and fparams[:1] == ['cls']:
+        fparams = fparams[1:]
     ctx.need(len(fparams) == 1, f'{m.rel}::{C}.from_dict: parameters {fparams}')
     data = fparams[0]
     base = f'{m.rel}::{C}'
@@ -375,8 +498,9 @@ def _check_roundtrip(ctx: Ctx, m: pf.Module, cls: ast.ClassDef, dispatcher: Opti
                 return (k in W) if isinstance(a.ops[0], ast.In) else (k not in W)
         return None
 
-    atoms = absdom.collect_test_atoms(fn.body)
-    ctx.need(not any(isinstance(n, (ast.For, ast.While, ast.Try)) for n in pf.walk_shallow(fn) if n is not fn), f'{base}.from_dict: loops/try are not a recognised shape')
+    body = cf.comprehend_loops(fn.body)   # `acc = {}; for x in it: acc[k] = v` is read as a comprehension
+    atoms = absdom.collect_test_atoms(body)
+    ctx.need(not any(isinstance(n, (ast.For, ast.While, ast.Try)) for st0 in body for n in [st0] + list(pf.walk_shallow(st0))), f'{base}.from_dict: loops/try are not a recognised shape')
     ctx.need(len(atoms) <= 5, f'{base}.from_dict: too many tests')
     free = [absdom.atom_key(a) for a in atoms]
     n_paths = 0
@@ -389,7 +513,7 @@ def _check_roundtrip(ctx: Ctx, m: pf.Module, cls: ast.ClassDef, dispatcher: Opti
         def val(a: ast.AST) -> bool:
             v = atom_value(a, env_of(executed))
             return v if v is not None else fv[absdom.atom_key(a)]
-        o = absdom.walk_block(fn.body, val, executed)
+        o = absdom.walk_block(body, val, executed)
         sig = tuple(id(s) for s in executed)
         if sig in seen_paths:
             continue
@@ -401,7 +525,7 @@ def _check_roundtrip(ctx: Ctx, m: pf.Module, cls: ast.ClassDef, dispatcher: Opti
             return subst_names(e, env_path)
         # reads and assertions
         for s in executed:
-            for n in ast.walk(s):
+            for n in _walk_scoped(s, data):
                 k = _data_key(n, data)
                 if k is not None and k not in W:
                     optional = isinstance(n, ast.Call)  # data.get(k): tolerated, yields None
@@ -441,15 +565,29 @@ def _check_roundtrip(ctx: Ctx, m: pf.Module, cls: ast.ClassDef, dispatcher: Opti
             if k is not None:
                 if k not in W:
                     continue  # reported above
-                if pf.nsrc(W[k]) == f'self.{attr}':
+                w_attrs = {cf.self_attr(n) for n in ast.walk(W[k]) if cf.self_attr(n) is not None}
+                if pf.nsrc(W[k]) == f'self.{attr}' or _is_identity_on(W[k], attr, ann.get(p)):
                     oks.append((role, f"data['{k}'] -> {p} -> self.{attr} -> '{k}'"))
+                elif w_attrs == {attr}:
+                    # the key carries a function of the right attribute: lossy if it rounds / truncates / clamps, otherwise not classified
+                    lossy = [n for n in ast.walk(W[k]) if (isinstance(n, ast.BinOp) and isinstance(n.op, (ast.FloorDiv, ast.Mod, ast.RShift, ast.BitAnd)))
+                             or (isinstance(n, ast.Call) and pf.dotted(n.func) in ('round', 'min', 'max', 'abs', 'math.floor', 'math.ceil', 'len', 'bool'))
+                             or (isinstance(n, ast.Subscript) and isinstance(n.slice, ast.Slice))]
+                    if not lossy:
+                        raise AnalysisError(f"{base}.to_dict: '{k}' carries `{short(pf.nsrc(W[k]), 50)}`, a function of self.{attr} that is not recognised as invertible or lossy")
+                    problems.append((role, f"to_dict writes '{k}': `{short(pf.nsrc(W[k]), 70)}`, a many-to-one function of self.{attr} (`{short(pf.nsrc(lossy[0]), 40)}`), and from_dict passes it back "
+                                     f"as `{p}` unchanged: values of {attr} that differ below that granularity are reloaded as the same value, so the reloaded object bills a different "
+                                     f"quantity than the one it was stored from", a2.lineno))
                 else:
                     problems.append((role, f"from_dict passes data['{k}'] as `{p}` (stored in self.{attr}) but to_dict writes '{k}': {pf.nsrc(W[k])}"
                                      + (f" and self.{attr} under '{keys_for_attr[0]}'" if keys_for_attr else '')
                                      + f': after a store/reload {attr} holds a different field, so the reloaded config bills different quantities', a2.lineno))
                 continue
             # nested resources
-            if isinstance(a2, (ast.ListComp,)) and len(a2.generators) == 1:
+            def _nested_writer(v: Optional[ast.AST]) -> bool:
+                return isinstance(v, ast.ListComp) and isinstance(v.elt, ast.Call) and isinstance(v.elt.func, ast.Attribute) and v.elt.func.attr == 'to_dict'
+            if isinstance(a2, (ast.ListComp,)) and len(a2.generators) == 1 and (
+                    isinstance(a2.elt, ast.Call) or _nested_writer(W.get(_data_key(a2.generators[0].iter, data) or ''))):
                 g = a2.generators[0]
                 kk = _data_key(g.iter, data)
                 wv = W.get(kk) if kk else None
@@ -463,6 +601,24 @@ def _check_roundtrip(ctx: Ctx, m: pf.Module, cls: ast.ClassDef, dispatcher: Opti
                     problems.append((role, f"'{kk}' is written as `{short(pf.nsrc(wv), 60)}` and re-read as `{short(pf.nsrc(a2), 60)}`: not a to_dict / from_dict pair over self.{attr}", a2.lineno))
                 elif dispatcher is not None and disp != dispatcher:
                     problems.append((role, f"'{kk}' is re-read with `{disp}` instead of this cloud's `{dispatcher}`: the resources cannot be rebuilt", a2.lineno))
+                elif len(wv.generators) != 1 or pf.nsrc(wv.elt.func.value) != pf.nsrc(wv.generators[0].target):  # type: ignore[union-attr]
+                    raise AnalysisError(f"{base}.to_dict: '{kk}': `{short(pf.nsrc(wv), 60)}` is not `[r.to_dict() for r in self.{attr}]`")
+                elif wv.generators[0].ifs or g.ifs:  # type: ignore[union-attr]
+                    # a filter on either side: decided by enumerating the resource classes of this cloud (finite)
+                    side, comp, var = ('to_dict', wv.generators[0], pf.nsrc(wv.generators[0].target)) if wv.generators[0].ifs else ('from_dict', g, pf.nsrc(g.target))  # type: ignore[union-attr]
+                    ctx.need(nested is not None, f'{base}.{side}: filtered comprehension over the nested resources (no class list to enumerate)')
+                    dropped = []
+                    for cname, tag in nested or []:
+                        vals = [_filter_eval(t, var, cname, tag) for t in comp.ifs]
+                        ctx.need(all(v is not None for v in vals), f'{base}.{side}: filter `{short(pf.nsrc(comp.ifs[0]), 50)}` over the nested resources is not a recognised shape')
+                        if not all(vals):
+                            dropped.append(cname)
+                    if dropped:
+                        problems.append((role, f"{side} filters the nested resources with `{short(' and '.join(pf.nsrc(t) for t in comp.ifs), 80)}`, which drops every {', '.join(dropped)}: "
+                                         f"a config that carries such a resource comes back without it, so the reloaded config no longer bills that resource (quantities differ after a "
+                                         f"store / reload)", a2.lineno))
+                    else:
+                        oks.append((role, f"data['{kk}'] -> [{disp}(…)] -> {p} -> self.{attr} -> [r.to_dict()] (filter keeps every resource class)"))
                 else:
                     oks.append((role, f"data['{kk}'] -> [{disp}(…)] -> {p} -> self.{attr} -> [r.to_dict()]"))
                 continue
@@ -477,12 +633,15 @@ def _check_roundtrip(ctx: Ctx, m: pf.Module, cls: ast.ClassDef, dispatcher: Opti
             if keys_read and _is_identity_on(h, attr, ann.get(p)):
                 oks.append((role, f"{'/'.join(sorted(set(keys_read)))} -> `{short(pf.nsrc(a2), 50)}` -> {p} -> self.{attr}: from_dict o to_dict is the identity on it"))
                 continue
-            occ = _attr_occurrences(W, attr)
+            # how does the rebuilt value h(self) depend on self.<attr>?  (occurrences inside the composition; keys that to_dict writes but from_dict ignores do not count)
+            occ = [(k2, kind, top) for k2 in sorted(set(keys_read)) for (_k, kind, top) in _attr_occurrences({k2: W[k2]}, attr)]
+            if len(occ) != len(_attr_occurrences({'h': h}, attr)):
+                occ = [('?', 'other', h)]   # the attribute also enters through something the per-key view does not see
             relevant = billing_reads is None or attr in billing_reads
             rebuilt_collection = isinstance(a2, (ast.DictComp, ast.ListComp, ast.SetComp)) or (isinstance(a2, ast.Call) and pf.dotted(a2.func) in ('dict', 'list', 'set'))
             if occ and all(k == 'summary' for _, k, _ in occ) and (_is_collection_annotation(ann.get(p)) or rebuilt_collection):
                 ctx.need(relevant, f'{base}: self.{attr} is serialised through a summary only, but the billing path does not read it (not decided)')
-                summ = '; '.join(sorted({f"'{k}' <- `{short(pf.nsrc(cf.expand(meths['to_dict'], t)), 90)}`" for k, _, t in occ}))
+                summ = '; '.join(sorted({f"'{k}': `{short(pf.nsrc(W[k]), 130)}`" for k, _, _t in occ}))
                 reader = f' (billing reads `{billing_reads[attr]}`)' if billing_reads and attr in billing_reads else ''
                 problems.append((role, f'self.{attr} is a collection{reader}, but to_dict writes only a summary of it - {summ} - i.e. one element / aggregate (many-to-one), and from_dict rebuilds '
                                  f'the whole collection from that with `{short(pf.nsrc(a2), 110)}` (one-to-many): two {C} objects that differ in any other element (e.g. two entries of '
@@ -539,6 +698,11 @@ def _check_roundtrip(ctx: Ctx, m: pf.Module, cls: ast.ClassDef, dispatcher: Opti
 # --------------------------------------------------------------------------------------
 
 
+def _class_of_type(concrete: List[ast.ClassDef], tag: Optional[str]) -> Optional[str]:
+    hits = [c.name for c in concrete if isinstance(_class_consts(c).get('TYPE'), ast.Constant) and _class_consts(c)['TYPE'].value == tag]  # type: ignore[attr-defined]
+    return hits[0] if len(hits) == 1 else None
+
+
 def _check_dispatcher(ctx: Ctx, m: pf.Module, mic: pf.Module, name: str, concrete: List[ast.ClassDef]) -> None:
     fn = m.func(name)
     ps = [a.arg for a in fn.args.args]
@@ -556,6 +720,8 @@ def _check_dispatcher(ctx: Ctx, m: pf.Module, mic: pf.Module, name: str, concret
             for x, y in ((t.left, t.comparators[0]), (t.comparators[0], t.left)):
                 if isinstance(x, ast.Name) and x.id == typ_var and isinstance(y, ast.Attribute) and y.attr == 'TYPE' and isinstance(y.value, ast.Name):
                     return y.value.id
+                if isinstance(x, ast.Name) and x.id == typ_var and pf.const_str(y) is not None:
+                    return _class_of_type(concrete, pf.const_str(y)) or f'?{pf.const_str(y)}'  # a literal tag: the class that carries it (or '?tag': no class does)
         return None
 
     def returned_class(r: ast.stmt) -> Optional[str]:
@@ -585,8 +751,10 @@ def _table_dispatcher(ctx: Ctx, m: pf.Module, fn: pf.FuncDef, name: str, data: s
         classes = [pf.nsrc(x) for x in tv.generators[0].iter.elts]
     elif isinstance(tv, ast.Dict):
         for k, v in zip(tv.keys, tv.values):
-            ctx.need(k is not None and pf.nsrc(k).endswith('.TYPE') and pf.nsrc(v).endswith('.from_dict'), f'{name}: table {table} entry {pf.nsrc(k) if k else None} not recognised')
-            kc, vc = pf.nsrc(k)[:-5], pf.nsrc(v)[:-10]
+            lit = pf.const_str(k) if k is not None else None
+            ctx.need(k is not None and (pf.nsrc(k).endswith('.TYPE') or (lit is not None and _class_of_type(concrete, lit) is not None)) and pf.nsrc(v).endswith('.from_dict'),
+                     f'{name}: table {table} entry {pf.nsrc(k) if k else None} not recognised')
+            kc, vc = (_class_of_type(concrete, lit) if lit is not None else pf.nsrc(k)[:-5]), pf.nsrc(v)[:-10]
             ctx.check(kc == vc, 'R2', f'{m.rel}::{name}::{kc}.TYPE', f'a dictionary tagged {kc}.TYPE is rebuilt with {vc}.from_dict', m.path, k.lineno)
             classes.append(kc)
     else:
@@ -629,7 +797,8 @@ def _table_dispatcher(ctx: Ctx, m: pf.Module, fn: pf.FuncDef, name: str, data: s
                 if cls is None:
                     continue
                 written = set(_written(ctx, m, cls))
-                missing = sorted(k for k in written - kkeys if k not in ('type', 'format_version'))
+                wmap = _written(ctx, m, cls)
+                missing = sorted(k for k in written - kkeys if k not in ('type', 'format_version') and not _is_class_constant(m, cls, wmap[k]))
                 ctx.check(not missing, 'R2', f'{m.rel}::{name}::memo key covers {cname}', f'{name} returns objects memoised in `{cache}` under the key {sorted(kkeys)}, but a serialised {cname} also '
                           f'carries {missing}: two records that differ only there (e.g. disk size, accelerator count) are reloaded as the same object and bill the same quantity',
                           m.path, r.lineno)
@@ -648,6 +817,8 @@ def _chain_dispatcher(ctx: Ctx, m: pf.Module, fn: pf.FuncDef, name: str, data: s
             ctx.need(c is not None and len(st.body) == 1 and not st.orelse, f'{name}: branch `{short(pf.nsrc(st.test), 50)}` is not `if typ == C.TYPE: return C.from_dict(data)`')
             rc = returned_class(st.body[0])
             ctx.need(rc is not None, f'{name}: branch for {c} does not return X.from_dict({data})')
+            if c.startswith('?'):  # type: ignore[union-attr]
+                continue  # a tag no class writes (legacy alias or typo): covers nothing; a class left uncovered is reported below
             ctx.check(rc == c, 'R2', f'{m.rel}::{name}::{c}.TYPE', f'a dictionary tagged {c}.TYPE is rebuilt with {rc}.from_dict: the reloaded resource has another class '
                       'and bills by another formula', m.path, st.lineno)
             covered[c] = st.lineno  # type: ignore[index]
@@ -697,6 +868,9 @@ def _dispatcher_tail(ctx: Ctx, m: pf.Module, mic: pf.Module, fn: pf.FuncDef, nam
 
 class NotSA(Exception):
     pass
+
+
+_ASSUMED: Set[str] = set()
 
 
 def _is_const(e: ast.AST, consts: Set[str]) -> bool:
@@ -762,116 +936,249 @@ def _sa(e: ast.AST, params: Sequence[str], subst: Dict[str, ast.AST], consts: Se
             raise NotSA(f'`{short(pf.nsrc(e), 60)}` rounds up: two jobs of half a unit are each billed a whole unit, together more than the worker')
         if f in ('max',):
             raise NotSA(f'`{short(pf.nsrc(e), 60)}` imposes a minimum charge per job: many small jobs together exceed the worker')
+        if f in ('int', 'math.floor') and len(e.args) == 1 and not e.keywords:
+            a = e.args[0]
+            if isinstance(a, ast.BinOp) and isinstance(a.op, ast.Div) and _is_pos_const(a.right, consts):
+                # floor(x / c) for integers x >= 0, c > 0 below 2**53: the correctly rounded float quotient of a non-multiple stays below the next integer
+                _ASSUMED.add('int(x / c) and math.floor(x / c) are read as x // c (quantities stay far below 2**53, where float division cannot round a non-integer quotient up to an integer)')
+                return _sa(a.left, params, subst, consts)
+            return _sa(a, params, subst, consts)
         if f in ('min', 'round', 'int', 'abs', 'math.floor'):
             raise NotSA(f'`{short(pf.nsrc(e), 60)}` ({f}) is not in the superadditive fragment')
         raise AnalysisError(f'superadditivity typing: unrecognised call `{short(pf.nsrc(e), 60)}`')
     raise AnalysisError(f'superadditivity typing: unrecognised expression `{short(pf.nsrc(e), 60)}`')
 
 
-def _mro(cls_name: str, classes: Dict[str, Tuple[pf.Module, ast.ClassDef]]) -> List[str]:
-    """C3 linearisation restricted to the analysed classes."""
-    if cls_name not in classes:
-        return []
-    _, c = classes[cls_name]
-    bases = [pf.dotted(b) for b in c.bases if pf.dotted(b) in classes]
-    seqs = [_mro(b, classes) for b in bases] + [list(bases)]  # type: ignore[arg-type]
-    out = [cls_name]
-    seqs = [s for s in seqs if s]
-    while seqs:
-        for s in seqs:
-            head = s[0]
-            if not any(head in t[1:] for t in seqs):
-                break
-        else:
-            raise AnalysisError(f'inconsistent MRO for {cls_name}')
-        out.append(head)
-        seqs = [[x for x in s if x != head] for s in seqs]
-        seqs = [s for s in seqs if s]
+
+
+# --------------------------------------------------------------------------------------
+# abstract evaluation of to_quantified_resource: quantities (R3), purity / aliasing (R4), attributes read by billing (R5)
+# --------------------------------------------------------------------------------------
+
+
+class Quantified:
+    def __init__(self, m: pf.Module, c: ast.ClassDef, owner: str, mo: pf.Module, ev: cf.DictEval, paths: List[cf.Path]):
+        self.m, self.c, self.owner, self.mo, self.ev, self.paths = m, c, owner, mo, ev, paths
+
+
+def _quantified(ctx: Ctx, m: pf.Module, c: ast.ClassDef) -> Quantified:
+    ev = cf.DictEval(_CLASSES, c.name, sorted(_TYPED_DICTS))
+    r = ev.resolve('to_quantified_resource')
+    ctx.need(r is not None, f'{c.name}: no concrete to_quantified_resource in its MRO')
+    owner, fn, mo = r  # type: ignore[misc]
+    ps = [a.arg for a in fn.args.args][1:]
+    ctx.need(ps == list(PACK_PARAMS) + [EXT_PARAM], f'{mo.rel}::{owner}.to_quantified_resource: parameters {ps}')
+    paths = ev.run('to_quantified_resource')
+    ctx.need(paths, f'{mo.rel}::{owner}.to_quantified_resource returns on no path')
+    for p in paths:
+        ctx.need(isinstance(p.result, (cf.Obj, cf.NoneVal)), f'{mo.rel}::{owner}.to_quantified_resource: returns `{short(pf.nsrc(p.result), 50) if isinstance(p.result, ast.AST) else p.result}`, '
+                 'which is not a recognised dict construction')
+    return Quantified(m, c, owner, mo, ev, paths)
+
+
+def _billing_reads(q: Quantified) -> Dict[str, str]:
+    """attribute of self read on the billing path -> an expression that reads it (for messages); @property bodies are followed."""
+    out: Dict[str, str] = {}
+    fns = [fn for _, fn, _ in q.ev.visited_fns]
+    seen_props: Set[str] = set()
+    i = 0
+    while i < len(fns):
+        fn = fns[i]
+        i += 1
+        par: Dict[int, ast.AST] = {}
+        for pn in ast.walk(fn):
+            for ch in ast.iter_child_nodes(pn):
+                par[id(ch)] = pn
+        for n in ast.walk(fn):
+            a = cf.self_attr(n)
+            if a is None or not isinstance(n.ctx, ast.Load):  # type: ignore[attr-defined]
+                continue
+            pn = par.get(id(n))
+            if isinstance(pn, ast.Call) and pn.func is n:
+                continue
+            text = pf.nsrc(pn) if isinstance(pn, ast.Subscript) and pn.value is n else pf.nsrc(n)
+            out.setdefault(a, short(text, 60))
+            if a not in seen_props:
+                seen_props.add(a)
+                for cn in q.ev.order:
+                    pfn = _methods(_CLASSES[cn][1]).get(a)
+                    if pfn is not None and any(pf.dotted(d) in ('property', 'functools.cached_property', 'cached_property') for d in pfn.decorator_list):
+                        fns.append(pfn)
+                        break
     return out
 
 
-def _quantities(ctx: Ctx, cls_name: str, classes: Dict[str, Tuple[pf.Module, ast.ClassDef]], start_after: Optional[str] = None) -> Tuple[str, List[Tuple[ast.AST, Dict[str, ast.AST], int]], pf.Module]:
-    """Resolve to_quantified_resource through the MRO; return (defining class, [(quantity expr, local substitution, line)], module)."""
-    order = _mro(cls_name, classes)
-    if start_after is not None:
-        order = order[order.index(start_after) + 1:]
+def _attr_sources(init: pf.FuncDef) -> Dict[str, ast.expr]:
+    """self.<attr> -> the (local-expanded) expression __init__ assigns to it"""
+    out: Dict[str, ast.expr] = {}
+    for n in pf.walk_shallow(init):
+        if isinstance(n, ast.Assign):
+            tgs, v = n.targets, n.value
+        elif isinstance(n, ast.AnnAssign) and n.value is not None:
+            tgs, v = [n.target], n.value
+        else:
+            continue
+        for t in tgs:
+            a = cf.self_attr(t)
+            if a is not None:
+                out[a] = cf.expand(init, v)
+    return out
+
+
+def _check_billing_attrs(ctx: Ctx, m: pf.Module, cls: ast.ClassDef, reads: Dict[str, str], what: str) -> None:
+    """R5: every attribute the billing path reads is something a reloaded object has: from_dict returns Cls(...), so the attribute must be set by
+    __init__ from constructor parameters (whose round trip R1 decides) or other such attributes, or be a class constant."""
+    order = cf.mro(cls.name, _CLASSES) or [cls.name]
+    consts: Set[str] = set()
+    props: Set[str] = set()
     for cn in order:
-        m, c = classes[cn]
-        fn = _methods(c).get('to_quantified_resource')
-        if fn is None:
-            continue
-        if any(pf.nsrc(d) in ('abc.abstractmethod', 'abstractmethod') for d in fn.decorator_list):
-            continue
-        ps = [a.arg for a in fn.args.args][1:]
-        ctx.need(ps == list(PACK_PARAMS) + [EXT_PARAM], f'{m.rel}::{cn}.to_quantified_resource: parameters {ps}')
-        out = []
-        subst: Dict[str, ast.AST] = {}
-        for name, vals in pf.assignments(fn).items():
-            if len(vals) == 1 and isinstance(vals[0], ast.expr):
-                subst[name] = vals[0]
-        for r in [n for n in pf.walk_shallow(fn) if isinstance(n, ast.Return)]:
-            if r.value is None or (isinstance(r.value, ast.Constant) and r.value.value is None):
+        c = _CLASSES[cn][1] if cn in _CLASSES else cls
+        consts |= set(_class_consts(c))
+        for s in c.body:
+            if isinstance(s, ast.AnnAssign) and isinstance(s.target, ast.Name) and s.value is not None:
+                consts.add(s.target.id)
+        for name, fn in _methods(c).items():
+            props.add(name)
+    init = _init_fn(cls)
+    ctx.need(init is not None, f'{m.rel}::{cls.name}: no __init__ in its MRO')
+    params = {a.arg for a in init.args.args[1:]} | {a.arg for a in init.args.kwonlyargs}  # type: ignore[union-attr]
+    src = _attr_sources(init)  # type: ignore[arg-type]
+    opaque_locals = {k for k, v in cf.local_defs(init).items() if v is None} - params  # type: ignore[arg-type]
+    for a in sorted(reads):
+        cons = f'{m.rel}::{cls.name}::{what} reads self.{a}'
+        if a in src:
+            v = src[a]
+            names = {n.id for n in ast.walk(v) if isinstance(n, ast.Name) and isinstance(n.ctx, ast.Load)} - {'self'}
+            bad_locals = sorted(names & opaque_locals)
+            attrs = {cf.self_attr(n) for n in ast.walk(v) if cf.self_attr(n) is not None}
+            unset = sorted(x for x in attrs if x not in src and x not in consts and x not in props)
+            ctx.need(not bad_locals and not unset, f'{m.rel}::{cls.name}.__init__: self.{a} = `{short(pf.nsrc(v), 50)}` depends on {bad_locals + unset} (not a recognised shape)')
+            ctx.ok('R5', cons, {'set_by___init___from': short(pf.nsrc(v), 80), 'read_as': reads[a]})
+        elif a in consts or a in props:
+            ctx.ok('R5', cons, 'class constant / property', nontrivial=False)
+        else:
+            delegating = [short(pf.nsrc(c), 40) for c in pf.calls_in(init) if  # type: ignore[arg-type]
+                          (isinstance(c.func, ast.Attribute) and (pf.nsrc(c.func.value) in ('self', 'super()') or pf.nsrc(c.func.value).startswith('super(')))
+                          or pf.dotted(c.func) in ('setattr', 'vars') or 'self' in [pf.nsrc(x) for x in c.args]]
+            delegating += ['self.__dict__'] if any(cf.self_attr(n) == '__dict__' for n in ast.walk(init)) else []  # type: ignore[arg-type]
+            ctx.need(not delegating, f'{m.rel}::{cls.name}.__init__ does not set self.{a} itself but hands self to `{delegating[0] if delegating else ""}` (not followed)')
+            ctx.bad('R5', cons, f'the billing path reads `{reads[a]}`, but {cls.name}.__init__ never sets self.{a} (it sets {sorted(src)}): the attribute exists only on objects that some other '
+                    f'code (e.g. create()) decorated after construction. from_dict returns {cls.name}(...), so a reloaded object lacks it (AttributeError) or falls back to a class default, and '
+                    f'bills differently from the object it was stored from', m.path, cls.lineno)
+
+
+_reported_events: Set[Tuple[str, str, str]] = set()
+_IC_CLASSES: List[Tuple[pf.Module, ast.ClassDef]] = []
+
+
+def _check_purity(ctx: Ctx, q: Quantified) -> None:
+    """R4: the quantification is a pure function of (self's fields, the arguments): no retained dict is changed in place, no field it reads is changed, a
+    hand-written memo is keyed by everything the cached value depends on."""
+    base = f'{q.m.rel}::{q.c.name}.to_quantified_resource'
+    events: List[dict] = []
+    for p in q.paths:
+        for e in p.events:
+            k = (e['kind'], e['where'], e['stmt'])
+            if k not in [(x['kind'], x['where'], x['stmt']) for x in events]:
+                events.append(e)
+    item_attrs: Set[str] = set()
+    for p in q.paths:
+        if isinstance(p.result, cf.Obj):
+            for v in p.result.items.values():
+                item_attrs |= {cf.self_attr(n) for n in ast.walk(v) if cf.self_attr(n) is not None}  # type: ignore[misc]
+    memo_containers = {e['container'] for e in events if e['kind'] == 'memo-store'}
+    n_bad = 0
+    for e in events:
+        key = (e['kind'], e['where'], e['stmt'])
+        cons = f"{e['where']}::{e['stmt']}"
+        msg = None
+        if e['kind'] == 'mutates-shared' and e['mode'] == 'overwrite':
+            # the retained dict is overwritten with a value that does not depend on what it held.  Harmless iff that value is determined by what identifies the
+            # retained object (the memo key): every hit then rewrites the same value.  Otherwise one object serves requests with different values.
+            ma = e.get('memo_atoms')
+            ctx.need(ma is not None, f"{e['where']}: `{e['stmt']}` overwrites a dict read from state whose identity the analysis does not know (not decided)")
+            free = sorted(a for a in e['value_atoms'] if a not in ma and not (a.startswith('self.') and 'self' in ma) and a != 'self')
+            if not free:
                 continue
-            d = r.value
-            ctx.need(isinstance(d, ast.Dict), f'{m.rel}::{cn}.to_quantified_resource: return `{short(pf.nsrc(r), 60)}` is not a dict literal')
-            q = [v for k, v in zip(d.keys, d.values) if k is not None and pf.const_str(k) == 'quantity']  # type: ignore[union-attr]
-            ctx.need(len(q) == 1, f"{m.rel}::{cn}.to_quantified_resource: no 'quantity'")
-            out.append((q[0], subst, r.lineno))
-        ctx.need(out, f'{m.rel}::{cn}.to_quantified_resource returns no quantity')
-        return cn, out, m
-    raise AnalysisError(f'{cls_name}: no concrete to_quantified_resource in its MRO')
+            msg = (f"`{e['stmt']}` {e['what']} a dict that is not private to this call: {e['why']}. The stored value depends on {free}, which is not part of what identifies the retained "
+                   f"dict {ma}: requests that differ in {free[0]} are handed the SAME dict object, so the list a job already holds (the worker keeps quantified_resources(...) per job) "
+                   f"changes under it to the latest request's quantity - jobs are billed each other's quantities, and the jobs on a worker can add up to more than the worker")
+        elif e['kind'] == 'mutates-shared' and e['mode'] == 'destroy':
+            msg = (f"`{e['stmt']}` {e['what']} a dict that is not private to this call: {e['why']}. The next identical quantification gets the dict without that key, so identical "
+                   f"calls do not return identical bills (KeyError or a missing name / quantity on the second call; a reloaded config differs from the warm original)")
+        elif e['kind'] == 'mutates-shared':
+            msg = (f"`{e['stmt']}` {e['what']} a dict that is not private to this call: {e['why']}. The change lands in the shared object, so the next quantification with the same "
+                   f"arguments starts from the already changed value (q -> q*n -> q*n*n ... for a scaling by n > 1): the same job on the same config is billed more on every call - "
+                   f"a job that fills the worker is billed more than the worker itself (both are computed by this function with cpu = cores*1000), and a config reloaded from its "
+                   f"serialised form (new objects, nothing cached) bills differently from the warm original. Build a new dict or copy before updating")
+        elif e['kind'] == 'self-store':
+            if f"self.{e['attr']}" in memo_containers or any(mc.startswith(f"self.{e['attr']}") for mc in memo_containers):
+                continue
+            if e['attr'] in item_attrs:
+                ctx.need(e.get('accumulating'), f"{e['where']}: `{e['stmt']}` rewrites self.{e['attr']}, which the billed quantity reads, in a way the analysis cannot classify "
+                         '(idempotent normalisation or drift?)')
+                msg = (f"`{e['stmt']}` changes self.{e['attr']} while quantifying, and the billed name / quantity is computed from self.{e['attr']}: two identical calls bill differently "
+                       f"(the whole-worker bill and the bill of a job that fills the worker differ), and the drift is not serialised, so a reloaded config bills like a fresh one")
+        elif e['kind'] == 'memo-store':
+            deps = set(e['deps'])
+            keyn = set(e['key_names'])
+            need_params = {d for d in deps if d in PACK_PARAMS + (EXT_PARAM,)}
+            need_self = set() if e['container'].startswith('self.') else {d for d in deps if d.startswith('self.')}
+            if 'self' in keyn:   # the object itself (identity) is part of the key
+                need_self = set()
+            missing = sorted((need_params | need_self) - keyn)
+            if missing:
+                msg = (f"`{e['stmt']}` caches the quantified dict in `{e['container']}` under the key `{e['key']}`, but the cached value depends on {missing}, which the key omits: two "
+                       f"requests that differ only there ({'two resources, e.g. boot disk and data disk, with the same key but different ' + missing[0] if missing[0].startswith('self.') else 'two jobs with different ' + missing[0]}) receive the same cached quantity, so jobs are billed for another job's share "
+                       f"(several small jobs can each be billed the first, larger job's quantity: more than the worker in total)")
+            else:
+                if key not in _reported_events:
+                    _reported_events.add(key)
+                    ctx.ok('R4', cons, {'memo_key': e['key'], 'covers': sorted(need_params | need_self)})
+                continue
+        if msg is not None:
+            n_bad += 1
+            if key not in _reported_events:
+                _reported_events.add(key)
+                ctx.bad('R4', cons, msg, e['file'], e['line'])
+    # a path that returns a dict read back from state must be a hit of a memo this method fills itself (typed on the filling path)
+    for p in q.paths:
+        r = p.result
+        if isinstance(r, cf.Obj) and r.prov == 'state' and 'quantity' not in r.items:
+            ctx.need(r.container in memo_containers, f'{base}: returns a dict read from `{r.container}` whose content is not built here (not a recognised shape)')
+    if n_bad == 0:
+        provs = sorted({p.result.prov for p in q.paths if isinstance(p.result, cf.Obj)})
+        ctx.ok('R4', f'{base}::pure', {'chain': q.ev.visited, 'memoised': q.ev.memoised, 'result': provs, 'paths': len(q.paths)})
 
 
-def _expand_super(ctx: Ctx, e: ast.AST, subst: Dict[str, ast.AST], owner: str, cls_name: str, classes, depth: int = 3) -> ast.AST:
-    """Replace X['quantity'] where X = super().to_quantified_resource(<own params in order>) by the parent's quantity expression."""
-    class T(ast.NodeTransformer):
-        def visit_Subscript(self, node):
-            self.generic_visit(node)
-            if pf.const_str(node.slice) == 'quantity' and isinstance(node.value, ast.Name) and node.value.id in subst:
-                src = subst[node.value.id]
-                if isinstance(src, ast.Call) and pf.nsrc(src.func) == 'super().to_quantified_resource':
-                    args = [pf.nsrc(a) for a in src.args] + [pf.nsrc(k.value) for k in src.keywords]
-                    ctx.need(args == list(PACK_PARAMS) + [EXT_PARAM] and all(k.arg in (None,) + PACK_PARAMS + (EXT_PARAM,) for k in src.keywords),
-                             f'{owner}.to_quantified_resource: super() call does not forward the parameters unchanged')
-                    ctx.need(depth > 0, 'super() chain too deep')
-                    pcn, pq, _ = _quantities(ctx, cls_name, classes, start_after=owner)
-                    ctx.need(len(pq) == 1, f'{pcn}.to_quantified_resource has several quantities (unsupported under super())')
-                    inner, psub, _ = pq[0]
-                    return _expand_super(ctx, inner, psub, pcn, cls_name, classes, depth - 1)
-            return node
-    import copy
-    return T().visit(copy.deepcopy(e))
-
-
-def _check_superadditive(ctx: Ctx, classes: Dict[str, Tuple[pf.Module, ast.ClassDef]], concrete: List[Tuple[pf.Module, ast.ClassDef]]) -> None:
-    for m, c in concrete:
-        owner, qs, mo = _quantities(ctx, c.name, classes)
-        for q, subst, line in qs:
-            cons = f'{m.rel}::{c.name}::quantity {short(pf.nsrc(q), 60)} (from {owner})'
-            q2 = _expand_super(ctx, q, subst, owner, c.name, classes)
+def _check_superadditive(ctx: Ctx, quants: List[Quantified]) -> None:
+    for qd in quants:
+        m, c, owner, mo = qd.m, qd.c, qd.owner, qd.mo
+        seen_q: Set[str] = set()
+        for p in qd.paths:
+            r = p.result
+            if not isinstance(r, cf.Obj):
+                continue
+            q2 = r.items.get('quantity')
+            if q2 is None and r.prov == 'state':
+                continue   # memo hit: typed on the path that fills the memo (see R4)
+            ctx.need(q2 is not None, f"{mo.rel}::{owner}.to_quantified_resource: a returned dict has no 'quantity' ({r.show()})")
+            text = pf.nsrc(q2)
+            if text in seen_q:
+                continue
+            seen_q.add(text)
+            cons = f'{m.rel}::{c.name}::quantity {short(text, 60)} (from {owner})'
+            line = fn_line = _methods(_CLASSES[owner][1])['to_quantified_resource'].lineno
+            del fn_line
             names = pf.names_in(q2)
-            # local names that stand for values derived only from the external storage are outside the packing clause
-            def only_external(e: ast.AST, depth: int = 4) -> bool:
-                ns = {n.id for n in ast.walk(e) if isinstance(n, ast.Name) and isinstance(n.ctx, ast.Load)}
-                ns -= {'self'}
-                for n in list(ns):
-                    if n == EXT_PARAM:
-                        continue
-                    if n in PACK_PARAMS:
-                        return False
-                    if n in subst and depth > 0:
-                        if not only_external(subst[n], depth - 1):
-                            return False
-                return True
-            if not (names & set(PACK_PARAMS)) and only_external(q2) and (EXT_PARAM in {n for e in [q2] + [subst[x] for x in names if x in subst] for n in pf.names_in(e)}
-                                                                        or any(EXT_PARAM in pf.names_in(subst[x]) for x in names if x in subst)):
+            if not (names & set(PACK_PARAMS)) and EXT_PARAM in names:
                 ctx.ok('R3', cons, 'depends only on the per-job external storage: outside the packing clause (not decided)', nontrivial=False)
                 continue
             try:
-                deps = _sa(q2, PACK_PARAMS, {k: v for k, v in subst.items() if k not in PACK_PARAMS}, set())
-                ctx.ok('R3', cons, {'resolved': short(pf.nsrc(q2), 100), 'depends_on': sorted(deps)})
+                deps = _sa(q2, PACK_PARAMS, {}, set())
+                ctx.ok('R3', cons, {'resolved': short(text, 100), 'depends_on': sorted(deps), 'path': p.conds})
             except NotSA as e:
-                ctx.bad('R3', cons, f'`{short(pf.nsrc(q2), 90)}` is not superadditive in (cpu, memory, worker fraction): {e}; e.g. the jobs filling one worker are '
+                ctx.bad('R3', cons, f'`{short(text, 90)}` is not superadditive in (cpu, memory, worker fraction): {e}; e.g. the jobs filling one worker are '
                         'billed more of this resource than the whole worker', mo.path, line)
     # worker fraction and plumbing
     m = pf.load(F_IC)
@@ -889,8 +1196,11 @@ def _check_superadditive(ctx: Ctx, classes: Dict[str, Tuple[pf.Module, ast.Class
         ctx.bad('R3', cons, f'`{pf.nsrc(wf)}` is not a superadditive function of {ps[0]}: {e}; per-worker resources (VM, disks, IP) billed to the jobs packed on a worker '
                 'add up to more than the worker', m.path, wf.lineno)
     # exact shape: 1024 * cpu // (self.cores * 1000)  (whole worker == 1024)
-    shape_ok = (isinstance(wf, ast.BinOp) and isinstance(wf.op, ast.FloorDiv) and pf.nsrc(wf.right) in ('self.cores * 1000', '1000 * self.cores')
-                and pf.nsrc(wf.left) in (f'1024 * {ps[0]}', f'{ps[0]} * 1024'))
+    wfn = wf
+    if isinstance(wf, ast.Call) and pf.dotted(wf.func) in ('int', 'math.floor') and len(wf.args) == 1 and isinstance(wf.args[0], ast.BinOp) and isinstance(wf.args[0].op, ast.Div):
+        wfn = ast.BinOp(left=wf.args[0].left, op=ast.FloorDiv(), right=wf.args[0].right)
+    shape_ok = (isinstance(wfn, ast.BinOp) and isinstance(wfn.op, ast.FloorDiv) and pf.nsrc(wfn.right) in ('self.cores * 1000', '1000 * self.cores')
+                and pf.nsrc(wfn.left) in (f'1024 * {ps[0]}', f'{ps[0]} * 1024'))
     ctx.check(shape_ok, 'R3', cons + '::scale', f'`{pf.nsrc(wf)}` is not 1024 * {ps[0]} // (self.cores * 1000): the fraction of a whole worker (cpu = cores*1000) '
               'is not 1024/1024ths, so static per-worker resources are over- or under-billed', m.path, wf.lineno)
     calls = [c for c in pf.calls_in(fn) if isinstance(c.func, ast.Attribute) and c.func.attr == 'to_quantified_resource']
@@ -911,38 +1221,288 @@ def _check_superadditive(ctx: Ctx, classes: Dict[str, Tuple[pf.Module, ast.Class
     appends = [x for x in ast.walk(loops[0]) if isinstance(x, ast.Call) and isinstance(x.func, ast.Attribute) and x.func.attr in ('append', 'extend')]
     ctx.check(len(appends) == 1, 'R3', f'{F_IC}::InstanceConfig.quantified_resources::one entry per resource',
               f'{len(appends)} append/extend calls per resource in the loop: a resource is billed more than once (or never)', m.path, loops[0].lineno)
+    _check_caller_loop(ctx, m, fn, loops[0], c, quants)
+    _check_whole_worker_sites(ctx, m)
+
+
+def _check_caller_loop(ctx: Ctx, m: pf.Module, fn: pf.FuncDef, loop: ast.For, call: ast.Call, quants: List[Quantified]) -> None:
+    """What InstanceConfig.quantified_resources does with each resource's dict between the call and the append: the loop body is evaluated with the call
+    result bound to an abstract dict {'name': N, 'quantity': Q} whose provenance is the least private one any implementation returns."""
+    shared = [(qd, p.result) for qd in quants for p in qd.paths if isinstance(p.result, cf.Obj) and p.result.prov != 'fresh']
+    prov, why = ('fresh', '')
+    if shared:
+        qd0, r0 = shared[0]
+        prov, why = r0.prov, f'{qd0.c.name}.to_quantified_resource may return a retained dict ({r0.why})'
+
+    def ext(c: ast.Call) -> Optional[cf.Obj]:
+        if c is call:
+            return cf.Obj(prov, why, {'name': ast.Name(id='N', ctx=ast.Load()), 'quantity': ast.Name(id='Q', ctx=ast.Load())})
+        return None
+    ev = cf.DictEval(_CLASSES, 'InstanceConfig', sorted(_TYPED_DICTS), external_call=ext)
+    env: Dict[str, object] = {}
+    states, finished = ev.run_block('InstanceConfig', fn, m, loop.body, env)
+    sinks = [s for st in states for s in st.sinks] + [s for p in finished for s in p.sinks]
+    ctx.need(sinks, 'InstanceConfig.quantified_resources: the loop appends nothing that the evaluation recognises')
+    cons = f'{F_IC}::InstanceConfig.quantified_resources::appended quantity'
+    seen: Set[str] = set()
+    for _, v in sinks:
+        ctx.need(isinstance(v, cf.Obj) and 'quantity' in v.items, f'InstanceConfig.quantified_resources: appends `{short(pf.nsrc(v), 40) if isinstance(v, ast.AST) else v}` (not a recognised shape)')
+        qx = v.items['quantity']  # type: ignore[union-attr]
+        if pf.nsrc(qx) in seen:
+            continue
+        seen.add(pf.nsrc(qx))
+        try:
+            deps = _sa(qx, ['Q'], {}, set())
+            ctx.check(deps == {'Q'}, 'R3', cons, f'the loop replaces the resource\'s quantity by `{pf.nsrc(qx)}`, which no longer depends on it', m.path, loop.lineno, detail={'appended': pf.nsrc(qx)})
+        except NotSA as e:
+            ctx.bad('R3', cons, f'between the call and the append the loop turns each resource\'s quantity Q into `{pf.nsrc(qx)}`, which is not superadditive in Q: {e}; the jobs packed on '
+                    'a worker are billed more than the whole worker', m.path, loop.lineno)
+    evs = [e for st in states for e in st.events] + [e for p in finished for e in p.events]
+    done: Set[str] = set()
+    for e in evs:
+        if e['kind'] == 'mutates-shared' and e['stmt'] not in done:
+            ctx.need(e['mode'] in ('accumulate', 'destroy'), f"InstanceConfig.quantified_resources: `{e['stmt']}` overwrites a key of a dict that a resource may retain between calls "
+                     '(whether every request rewrites the same value is not decided)')
+            done.add(e['stmt'])
+            ctx.bad('R4', f"{e['where']}::{e['stmt']}", f"`{e['stmt']}` {e['what']} the dict a resource returned, and {e['why']}: the change accumulates in the retained object, so identical "
+                    'quantifications of the same config bill more each time (a whole-worker job is billed more than the worker; a reloaded config bills differently)', e['file'], e['line'])
+    if not done:
+        ctx.ok('R4', f'{F_IC}::InstanceConfig.quantified_resources::returned dicts are not changed in place', {'least_private_result': prov})
+    _check_consumers(ctx, m, _IC_CLASSES, why if shared else None)
+
+
+_LIST_MUTATORS = ('append', 'extend', 'remove', 'pop', 'clear', 'sort', 'reverse', 'insert')
+_DICT_MUTATORS = ('update', 'pop', 'popitem', 'clear', 'setdefault')
+
+
+def _result_mutations(cls_methods: Dict[str, pf.FuncDef], fn: pf.FuncDef, lists: Set[str], depth: int = 2) -> Tuple[List[ast.AST], List[ast.AST]]:
+    """(statements that change a result LIST of quantified_resources in place, statements that change one of its element DICTS in place) in fn, where `lists`
+    are the names that hold such a list on entry; lists obtained from quantified_resources(...) calls, comprehensions over them and loop variables are followed,
+    as are calls of sibling methods that receive a list positionally (bounded depth)."""
+    lists = set(lists)
+    elems: Set[str] = set()
+    changed = True
+    while changed:
+        changed = False
+        for n in pf.walk_shallow(fn):
+            if isinstance(n, (ast.Assign, ast.AnnAssign)) and getattr(n, 'value', None) is not None:
+                tgs = n.targets if isinstance(n, ast.Assign) else [n.target]
+                v = n.value
+                is_list = (isinstance(v, ast.Call) and isinstance(v.func, ast.Attribute) and v.func.attr == 'quantified_resources') \
+                    or (isinstance(v, ast.Name) and v.id in lists) \
+                    or (isinstance(v, ast.ListComp) and len(v.generators) == 1 and isinstance(v.generators[0].iter, ast.Name) and v.generators[0].iter.id in lists
+                        and pf.nsrc(v.elt) == pf.nsrc(v.generators[0].target)) \
+                    or (isinstance(v, ast.Call) and pf.dotted(v.func) in ('list', 'sorted', 'tuple') and v.args and isinstance(v.args[0], ast.Name) and v.args[0].id in lists)
+                is_elem = (isinstance(v, ast.Subscript) and isinstance(v.value, ast.Name) and v.value.id in lists) or (isinstance(v, ast.Name) and v.id in elems)
+                for t in tgs:
+                    if isinstance(t, ast.Name):
+                        if is_list and t.id not in lists:
+                            lists.add(t.id)
+                            changed = True
+                        if is_elem and t.id not in elems:
+                            elems.add(t.id)
+                            changed = True
+            if isinstance(n, (ast.For, ast.comprehension)) and isinstance(n.iter, ast.Name) and n.iter.id in lists:
+                for x in ast.walk(n.target):
+                    if isinstance(x, ast.Name) and x.id not in elems:
+                        elems.add(x.id)
+                        changed = True
+    list_mut: List[ast.AST] = []
+    elem_mut: List[ast.AST] = []
+
+    def is_elem_expr(e: ast.AST) -> bool:
+        return (isinstance(e, ast.Name) and e.id in elems) or (isinstance(e, ast.Subscript) and isinstance(e.value, ast.Name) and e.value.id in lists)
+
+    for n in pf.walk_shallow(fn):
+        if isinstance(n, (ast.Assign, ast.AugAssign, ast.AnnAssign, ast.Delete)):
+            tgs = n.targets if isinstance(n, (ast.Assign, ast.Delete)) else [n.target]
+            for t in tgs:
+                if isinstance(t, ast.Subscript) and is_elem_expr(t.value):
+                    elem_mut.append(n)
+                elif isinstance(t, ast.Subscript) and isinstance(t.value, ast.Name) and t.value.id in lists:
+                    list_mut.append(n)
+                elif isinstance(n, ast.AugAssign) and isinstance(t, ast.Name) and t.id in lists:
+                    list_mut.append(n)
+        if isinstance(n, ast.Call) and isinstance(n.func, ast.Attribute):
+            if isinstance(n.func.value, ast.Name) and n.func.value.id in lists and n.func.attr in _LIST_MUTATORS:
+                list_mut.append(n)
+            elif is_elem_expr(n.func.value) and n.func.attr in _DICT_MUTATORS:
+                elem_mut.append(n)
+            elif depth > 0 and n.func.attr in cls_methods and n.func.attr != fn.name:
+                callee = cls_methods[n.func.attr]
+                ps = [a.arg for a in callee.args.args]
+                if ps and ps[0] in ('self', 'cls') and not any(pf.dotted(d) == 'staticmethod' for d in callee.decorator_list):
+                    ps = ps[1:]
+                passed = {ps[i] for i, a in enumerate(n.args) if i < len(ps) and isinstance(a, ast.Name) and a.id in lists}
+                passed |= {k.arg for k in n.keywords if k.arg in ps and isinstance(k.value, ast.Name) and k.value.id in lists}
+                if passed:
+                    lm, em = _result_mutations(cls_methods, callee, passed, depth - 1)  # type: ignore[arg-type]
+                    list_mut += lm
+                    elem_mut += em
+    return list_mut, elem_mut
+
+
+def _check_consumers(ctx: Ctx, mbase: pf.Module, ic_classes: List[Tuple[pf.Module, ast.ClassDef]], shared_elem_why: Optional[str]) -> None:
+    """R4 at the level of InstanceConfig: quantified_resources builds a new list on every call (or, if it is memoised, nobody changes the list or its dicts in
+    place); where resources hand out retained dicts, no consumer in the instance-config classes updates them."""
+    base_cls = mbase.cls('InstanceConfig')
+    qr = _methods(base_cls)['quantified_resources']
+    kind, text = cf.decorator_kind(qr)
+    ctx.need(kind in ('plain', 'memo'), f'{F_IC}::InstanceConfig.quantified_resources: decorator `{text}` is not understood')
+    shared_list_why = f'InstanceConfig.quantified_resources is memoised with `@{text}`: the same list (and dicts) is returned for equal arguments' if kind == 'memo' else None
+    loops = [n for n in pf.walk_shallow(qr) if isinstance(n, ast.For)]
+    appends = [x for x in ast.walk(loops[0]) if isinstance(x, ast.Call) and isinstance(x.func, ast.Attribute) and x.func.attr in ('append', 'extend')] if loops else []
+    if len(appends) == 1 and isinstance(appends[0].func.value, ast.Name):  # type: ignore[attr-defined]
+        acc = appends[0].func.value.id  # type: ignore[attr-defined]
+        d = pf.single_def(qr, acc)
+        ctx.need(isinstance(d, ast.List) and not d.elts, f'{F_IC}::InstanceConfig.quantified_resources: `{acc}` is not a list created empty by each call (a retained or pre-filled list is not a recognised shape)')
+        for r in [n for n in pf.walk_shallow(qr) if isinstance(n, ast.Return)]:
+            ctx.need(r.value is not None and pf.nsrc(r.value) == acc, f'{F_IC}::InstanceConfig.quantified_resources: `{short(pf.nsrc(r), 50)}` does not return the list built by this call '
+                     '(a cached / stored result is not a recognised shape)')
+    billed = {'cores', 'resources', 'job_private'}
+    for n in ast.walk(qr):
+        tg = None
+        if isinstance(n, (ast.Assign, ast.AugAssign, ast.AnnAssign)):
+            for t in (n.targets if isinstance(n, ast.Assign) else [n.target]):
+                base = t.value if isinstance(t, ast.Subscript) else t
+                if cf.self_attr(base) in billed:
+                    tg = base
+        if isinstance(n, ast.Call) and isinstance(n.func, ast.Attribute) and cf.self_attr(n.func.value) in billed and n.func.attr in _LIST_MUTATORS:
+            tg = n.func.value
+        ctx.need(tg is None, f'{F_IC}::InstanceConfig.quantified_resources changes `{pf.nsrc(tg) if tg is not None else ""}` while quantifying (not a recognised shape: is the next call billed the same?)')
+    n_consumers = 0
+    bad = 0
+    for m, c in [(mbase, base_cls)] + ic_classes:
+        meths = dict(_methods(base_cls))
+        meths.update(_methods(c))
+        for name, fn in _methods(c).items():
+            if name == 'quantified_resources' or not any(isinstance(x.func, ast.Attribute) and x.func.attr == 'quantified_resources' for x in pf.calls_in(fn)):
+                continue
+            n_consumers += 1
+            lm, em = _result_mutations(meths, fn, set())
+            for node, why in [(x, shared_list_why) for x in lm] + [(x, shared_list_why or shared_elem_why) for x in em]:
+                if why is None:
+                    continue   # a private list of private dicts: changing it affects only this caller's own computation
+                bad += 1
+                stmt = short(pf.nsrc(node), 80)
+                ctx.bad('R4', f'{m.rel}::{c.name}.{name}::{stmt}', f'`{stmt}` (reached from {c.name}.{name}) changes in place a result of quantified_resources that is not private to the caller: {why}. '
+                        'Later quantifications with the same arguments see the changed list / dict: identical requests are billed differently, the whole-worker bill and the bill of a job '
+                        'filling the worker diverge, and a reloaded config (nothing cached) bills differently from the warm original', m.path, node.lineno)
+    ctx.need(n_consumers >= 1, f'{F_IC}: no consumer of quantified_resources found (anchor changed)')
+    if bad == 0:
+        ctx.ok('R4', f'{F_IC}::InstanceConfig::consumers of quantified_resources do not update retained results', {'consumers': n_consumers, 'list_memoised': kind == 'memo',
+                                                                                                                      'dicts_retained_by_resources': shared_elem_why is not None})
+
+
+def _check_whole_worker_sites(ctx: Ctx, m: pf.Module) -> None:
+    """R4: the whole worker is quantified by the very function that bills a job, at cpu = cores*1000, memory = instance_memory(), no external storage; with
+    purity (R4) and worker fraction 1024 at that point (R3 scale) a job that fills the worker is billed exactly the worker."""
+    cls = m.cls('InstanceConfig')
+    meths = _methods(cls)
+    qr = meths['quantified_resources']
+    n_params = len(qr.args.args) - 1
+    forwarders: Dict[str, List[int]] = {}   # method -> positions of its parameters that reach quantified_resources' (cpu, memory, storage)
+    for name, fn in meths.items():
+        for c in pf.calls_in(fn):
+            if pf.nsrc(c.func) == 'self.quantified_resources' and name != 'quantified_resources':
+                ps = [a.arg for a in fn.args.args]
+                args = [pf.nsrc(a) for a in c.args]
+                if len(args) == n_params and all(a in ps for a in args) and not c.keywords:
+                    forwarders[name] = [ps.index(a) - 1 for a in args]
+    sites = 0
+    for name, fn in meths.items():
+        for c in pf.calls_in(fn):
+            f = pf.nsrc(c.func)
+            if f == 'self.quantified_resources':
+                pos = list(range(n_params))
+            elif f.startswith('self.') and f[5:] in forwarders:
+                pos = forwarders[f[5:]]
+            else:
+                continue
+            if c.keywords or len(c.args) <= max(pos):
+                continue
+            triple = [cf.expand(fn, c.args[i]) for i in pos]
+            if 'self.cores' not in pf.nsrc(triple[0]):
+                continue
+            sites += 1
+            cons = f'{m.rel}::InstanceConfig.{name}::whole worker = {f[5:]}(cores*1000, instance_memory(), 0)'
+            got = [pf.nsrc(x) for x in triple]
+            ctx.need(got[1] == 'self.instance_memory()' and got[2] == '0', f'{m.rel}::InstanceConfig.{name}: whole-worker quantification with memory `{got[1]}` / storage `{got[2]}` '
+                     '(expected self.instance_memory() / 0; not decided)')
+            ok = got[0] in ('self.cores * 1000', '1000 * self.cores')
+            ctx.check(ok, 'R4', cons, f'{name} quantifies the whole worker as {f[5:]}({", ".join(got)}) instead of (self.cores * 1000, self.instance_memory(), 0): the bill of the whole worker is '
+                      'not the bill of the job that occupies all of its cores and memory (worker fraction != 1024/1024ths, or another memory / storage figure)', m.path, c.lineno,
+                      detail={'arguments': got})
+    ctx.need(sites >= 1, f'{m.rel}: no whole-worker quantification (quantified_resources(self.cores * 1000, ...)) found')
 
 
 def run(ctx: Ctx) -> None:
     ctx.explanation = ('from_dict is executed abstractly on the symbolic dictionary written by to_dict of the same class (all test valuations that the written '
-                       'constants do not decide), every constructor argument is followed through __init__ back to the written key; dispatch tables are compared with '
-                       'the class set; quantity expressions are typed in a superadditive-monotone fragment.')
-    ctx.rule('R1', 'to_dict/from_dict round trip per class: keys read are written, type/version assertions hold, each field returns to its own key', 66)
+                       'constants do not decide), every constructor argument is followed through __init__ back to the written key and from_dict o to_dict is compared with the '
+                       'identity structurally (many-to-one writer + one-to-many reader = lossy); dispatch tables are compared with the class set; to_quantified_resource is '
+                       'executed abstractly through the MRO (symbolic dicts with provenance fresh / memo / state and aliasing), its quantity expressions are typed in a '
+                       'superadditive-monotone fragment and every in-place update of a retained dict is reported.')
+    ctx.rule('R1', 'to_dict/from_dict round trip per class: keys read are written, type/version assertions hold, each field returns to its own key; from_dict o to_dict is the '
+             'identity on every attribute (no collection rebuilt from a summary, no defaulted parameter dropped)', 66)
     ctx.rule('R2', 'resource dispatchers cover every class TYPE with that class\'s from_dict; TYPEs distinct; created resource classes covered', 56)
-    ctx.rule('R3', 'every billed quantity is a monotone superadditive function of (cpu, memory, worker fraction); worker fraction = 1024*cpu // (cores*1000)', 18)
+    ctx.rule('R3', 'every billed quantity is a monotone superadditive function of (cpu, memory, worker fraction); worker fraction = 1024*cpu // (cores*1000)', 19)
+    ctx.rule('R4', 'quantification is a pure function of (self fields, arguments): no dict retained between calls (memoised / stored state) is updated in place, no billed field is '
+             'changed, memo keys cover what the value depends on; the whole worker is quantified by the same function at (cores*1000, instance_memory(), 0)', 18)
+    ctx.rule('R5', 'every attribute the billing path reads is set by __init__ from constructor parameters (whose round trip R1 decides) or is a class constant', 27)
     ctx.assume('instance attributes used as factors/divisors (storage_in_gib, number, cores) are non-negative (cores positive) integers')
     ctx.assume('external storage is billed per job on top of the worker and is outside the packing clause')
+    ctx.assume('callers outside the analysed files only read the dicts returned by quantified_resources (a memoised quantification that nobody updates in place is accepted)')
+    ctx.assume('the elements of a collection attribute (e.g. the resource name per disk tier) can differ independently of each other')
+    _CLASSES.clear()
+    _TYPED_DICTS.clear()
+    _reported_events.clear()
+    _IC_CLASSES.clear()
     mres = pf.load(F_RES)
-    classes: Dict[str, Tuple[pf.Module, ast.ClassDef]] = {c.name: (mres, c) for c in mres.classes()}
-    all_concrete: List[Tuple[pf.Module, ast.ClassDef]] = []
+    mbase = pf.load(F_IC)
+    for c in mres.classes():
+        _CLASSES[c.name] = (mres, c)
+        if any(pf.dotted(b) in ('TypedDict', 'typing.TypedDict') for b in c.bases):
+            _TYPED_DICTS.add(c.name)
+    for c in mbase.classes():
+        _CLASSES[c.name] = (mbase, c)
+    mods = {}
     for cloud, (fres, fic, disp) in CLOUD_FILES.items():
-        m = pf.load(fres)
-        mic = pf.load(fic)
+        mods[cloud] = (pf.load(fres), pf.load(fic))
+        for mm in mods[cloud]:
+            for c in mm.classes():
+                ctx.need(c.name not in _CLASSES, f'{mm.rel}: class {c.name} defined twice among the analysed files')
+                _CLASSES[c.name] = (mm, c)
+    quants: List[Quantified] = []
+    for cloud, (fres, fic, disp) in CLOUD_FILES.items():
+        m, mic = mods[cloud]
         ctx.unit('files', 2)
-        for c in m.classes():
-            classes[c.name] = (m, c)
         concrete = [c for c in m.classes() if 'TYPE' in _class_consts(c)]
         ctx.need(len(concrete) >= 4, f'{fres}: only {len(concrete)} resource classes with a TYPE')
         for c in concrete:
             meths = _methods(c)
             ctx.need('to_dict' in meths and 'from_dict' in meths, f'{fres}::{c.name} lacks to_dict/from_dict')
-            _check_roundtrip(ctx, m, c, None)
+            qd = _quantified(ctx, m, c)
+            quants.append(qd)
+            reads = _billing_reads(qd)
+            _check_roundtrip(ctx, m, c, None, reads)
+            _check_billing_attrs(ctx, m, c, reads, 'to_quantified_resource')
+            _check_purity(ctx, qd)
             ctx.unit('classes')
-            all_concrete.append((m, c))
         _check_dispatcher(ctx, m, mic, disp, concrete)
         ics = [c for c in mic.classes() if 'to_dict' in _methods(c) and 'from_dict' in _methods(c)]
         ctx.need(len(ics) == 1, f'{fic}: expected one InstanceConfig subclass with to_dict/from_dict')
-        _check_roundtrip(ctx, mic, ics[0], disp)
+        _IC_CLASSES.append((mic, ics[0]))
+        _check_roundtrip(ctx, mic, ics[0], disp, None, [(c.name, _class_consts(c)['TYPE'].value) for c in concrete if isinstance(_class_consts(c).get('TYPE'), ast.Constant)])  # type: ignore[attr-defined]
+        # attributes read by InstanceConfig.quantified_resources and by instance_memory() (the whole-worker memory)
+        ic_reads: Dict[str, str] = {}
+        for fn in [mbase.func('InstanceConfig.quantified_resources')] + [f for n, f in _methods(ics[0]).items() if n == 'instance_memory']:
+            for n in ast.walk(fn):
+                a = cf.self_attr(n)
+                if a is not None and isinstance(n.ctx, ast.Load) and a not in _methods(ics[0]) and a not in _methods(_CLASSES['InstanceConfig'][1]):  # type: ignore[attr-defined]
+                    ic_reads.setdefault(a, f'self.{a} in {fn.name}')
+        _check_billing_attrs(ctx, mic, ics[0], ic_reads, 'quantified_resources')
         ctx.unit('classes')
     ctx.unit('files', 2)
-    _check_superadditive(ctx, classes, all_concrete)
+    _check_superadditive(ctx, quants)
+    for a in sorted(_ASSUMED):
+        ctx.assume(a)
